@@ -62,6 +62,40 @@ def worker(arg):
     return r
 
 @core.safe
+def session_worker(arg):
+    """Layout_sessions.cfg: two wrapped twins read in one process, in the given order."""
+    block, seed = arg
+    st = tlaval.parse_state_block(block)
+    if st["ph"] != 2:
+        return None
+    c, out = st["case"], st["out"]
+    g = dsdlgen.Gen(seed + hash(block) % 1000)
+    order = [("wa", "la"), ("wb", "lb")] if c["first"] == "a" else [("wb", "lb"), ("wa", "la")]
+    for n, (w, _l) in enumerate(order):
+        t = c[w]
+        g.files["ns/W%d.1.0.dsdl" % (n + 1)] = "%s x\n@sealed\n" % g.expr(t)
+    diff = []
+    with dsdlio.Tree(g.files, "c02s") as tr:
+        status, res, _ = dsdlio.read_ns(tr.path("ns"))
+        if status != "ok":
+            diff.append(("rejected", dsdlio.err_info(res)))
+        else:
+            for n, (w, l) in enumerate(order):
+                W = [x for x in res if x.full_name == "ns.W%d" % (n + 1)][0]
+                dt = W.fields[0].data_type
+                o = observe_layout(dt, W)
+                exp = out[l]
+                for k in ("bls", "align", "extent", "prefix", "tag", "header", "wrapper"):
+                    if o[k] != exp[k]:
+                        diff.append(("%s of the type read %s" % (k, "first" if n == 0 else "second"),
+                                     sorted(o[k]) if isinstance(o[k], frozenset) else o[k],
+                                     sorted(exp[k]) if isinstance(exp[k], frozenset) else exp[k]))
+    r = {"nt": True, "key": core.jhash(tlaval.to_json(c))}
+    if diff:
+        r["bad"] = {"kind": "layout-session", "case": tlaval.to_json(c), "files": g.files, "diff": diff[:6]}
+    return r
+
+@core.safe
 def boundary_worker(arg):
     import pydsdl
     c, out, tier = arg
@@ -152,7 +186,8 @@ def run(ctx):
                 "sealed and delimited with extents max/+8/+24) and small widths nested up to Growth levels; capacities and "
                 "variant counts at every bit length 1..64 (both ends) for the prefix / tag boundaries, unions also with "
                 "constants. Each is materialised as DSDL, read, and bit_length_set / alignment / extent / prefix / tag / "
-                "header compared with the specification. Non-trivial = non-primitive type; distinct by hash of the record")
+                "header compared with the specification. Sessions: every pair of element types whose sets differ but agree in min / "
+                "max / residues modulo 32, wrapped in seven ways each, both read in one process in either order. Non-trivial = non-primitive type; distinct by hash of the record")
     ctx.assumptions = ["TLC's evaluation of the specification", "union tag boundaries above 2**9 (quick) / 2**13 (thorough) "
                        "variants are not instantiated (counted as skipped); 2**16 and 2**32 variant boundaries are decided "
                        "on the specification only"]
@@ -167,6 +202,7 @@ def run(ctx):
                 out.append((dict(st["case"]), st["out"], ctx.tier))
         return out
     run_cfg(ctx, "Layout", "Layout_boundary.cfg", boundary_worker, "bnd", mk)
+    run_cfg(ctx, "Layout", "Layout_sessions.cfg", session_worker, "sess")
     ctx.sample({"type": {"k": "st", "f": [{"k": "var", "e": {"k": "u", "n": 12, "m": "s"}, "c": 2},
                                          {"k": "st", "f": [{"k": "u", "n": 8, "m": "s"}]}, {"k": "u", "n": 4, "m": "s"}]},
                 "expected_bls": [24, 40, 48]})
